@@ -61,6 +61,7 @@ def run(rep, tier, seed):
     rep.negative_cfgs.append("MC_Schema_c15_wbu.cfg (a failed cast writes the original back over an earlier rule's cast)")
     rng = random.Random(seed + 15)
     events, recipes = [], {}
+    ruledrv.VIA_SPEC[0] = random.Random(seed + 115)      # some rules are built from their spec (cast names -> cast table)
     for s in range(4000 if tier == "quick" else 60000):
         doc = ruledrv.cast_document(rng, depth=rng.choice([1, 2, 3]))
         k = rng.choice([1, 2, 2, 3])
@@ -86,6 +87,7 @@ def run(rep, tier, seed):
         recipes[e["id"]] = rec
         changed = e["outcome"] == "ok" and (e["cast_data"] != e["doc"] if e["op"] == "validate" else e["data"] != e["doc"])
         rep.note_case(repr((rrs, doc, e["op"])), nontrivial=changed or e["outcome"] != "ok")
+    ruledrv.VIA_SPEC[0] = None
     ruledrv.judge(rep, events, recipes, ruledrv.default_key)
     for e in events[:: max(1, len(events) // 2)][:2]:
         rep.sample({"src": recipes[e["id"]], "outcome": e["outcome"], "cast_data": e["cast_data"]})
